@@ -113,6 +113,12 @@ func genDoc(r *rand.Rand, names []string) docSpec {
 			d.comment = append(d.comment, nm+" "+rest)
 			d.expect = append(d.expect, nm+" "+rest)
 			d.hostile = true
+		case x == 5 && i == 0 && len(names) > 0:
+			// the text after the leading name starts with the name again ("Op Operation to apply")
+			nm := names[0]
+			d.comment = append(d.comment, nm+" "+nm+"eration to apply "+nm)
+			d.expect = append(d.expect, nm+" "+nm+"eration to apply "+nm)
+			d.hostile = true
 		case x == 4 && i == 0 && len(names) > 0:
 			// only the name: the first line disappears
 			d.comment = append(d.comment, names[0])
